@@ -148,6 +148,7 @@ pub fn exec(world: &mut World, op: &Value) -> String {
         }
         "readd" => { let p = pb!(); let mp = world.mp.as_ref().unwrap().clone(); let _ = mp.add(p); }
         "tick" => pb!().tick(),
+        "burst" => { let p = pb!(); for _ in 0..n { p.tick(); } }
         "inc" => pb!().inc(n),
         "dec" => pb!().dec(n),
         "set_position" => pb!().set_position(n),
@@ -242,7 +243,10 @@ pub fn run_history(hist: &Value, out: &mut dyn Write) {
     rec.insert("h".into(), h.clone());
     rec.insert("i".into(), json!(0));
     rec.insert("op".into(), json!("init"));
-    rec.insert("cfg".into(), cfg.clone());
+    let mpo = cfg.get("mp").and_then(|m| m.as_object());
+    let mphid = mpo.map(|m| m.get("target").and_then(|x| x.as_str()) == Some("hidden") || m.get("target").and_then(|x| x.as_str()) == Some("pipe")).unwrap_or(false);
+    let align = mpo.and_then(|m| m.get("align")).and_then(|x| x.as_str()).unwrap_or("top").to_string();
+    rec.insert("cfg".into(), json!({"w": cfg["w"].as_u64().unwrap_or(80), "h": cfg["h"].as_u64().unwrap_or(24), "multi": mpo.is_some(), "mphid": mphid, "align": align}));
     rec.insert("calls".into(), calls);
     rec.insert("q".into(), json!(q));
     rec.insert("t".into(), json!(0));
@@ -277,7 +281,8 @@ pub fn run_history(hist: &Value, out: &mut dyn Write) {
         rec.insert("get".into(), getters(&world, b));
         rec.insert("pipe".into(), json!(world.pipe_bytes()));
         // fill defaults so that the monitor can read every field on every record
-        for (k, d) in [("b", json!(0)), ("n", json!(0)), ("m", json!([])), ("tpl", json!("")), ("fin", json!("")), ("fm", json!([])), ("len", json!(0)), ("idx", json!(0)), ("b2", json!(0)), ("a", json!("")), ("dt", json!(0))] {
+        for (k, d) in [("b", json!(0)), ("n", json!(0)), ("m", json!([])), ("tpl", json!("")), ("fin", json!("")), ("fm", json!([])), ("len", json!(0)), ("idx", json!(0)), ("b2", json!(0)), ("a", json!("")), ("dt", json!(0)),
+                       ("m0", json!([])), ("p0", json!([])), ("pos0", json!(0)), ("tabw", json!(8)), ("target", json!("spy"))] {
             rec.entry(k.to_string()).or_insert(d);
         }
         writeln!(out, "{}", Value::Object(rec)).unwrap();
